@@ -43,6 +43,12 @@ Definition reg_of (name : string) (hs : list hinfo) : option hinfo :=
 
 Definition is_opened (r : rresp) : bool := match r with RROpened _ => true | _ => false end.
 
+(* two handles may show the same data: they were opened on the same bucket name, or at the same directory
+   (a directory opened under another name is the same store) *)
+Definition same_store (hi hj : hinfo) : bool :=
+  String.eqb (hi_name hj) (hi_name hi)
+  || (negb (hi_mem hi) && negb (hi_mem hj) && String.eqb (hi_url hj) (hi_url hi)).
+
 Definition chk_step_C13 (c : rcase) (hs : list hinfo) (prev : robs) (o : rop) (ob : robs) : bool :=
   match o with
   | ROpen mem url name mode =>
@@ -77,19 +83,19 @@ Definition chk_step_C13 (c : rcase) (hs : list hinfo) (prev : robs) (o : rop) (o
           (* the data and the registry entry are gone; buckets of other names are untouched *)
           negb (in_names (hi_name hi) (ro_names ob))
           && (hi_mem hi || negb (dir_exists c ob (hi_url hi)))
-          && views_same_except (fun _ hj => String.eqb (hi_name hj) (hi_name hi)) 0 hs (ro_views prev) (ro_views ob)
+          && views_same_except (fun _ hj => same_store hi hj) 0 hs (ro_views prev) (ro_views ob)
       | None => true
       end
   | RWrite h k v =>
       match nth_error hs (N.to_nat h), ro_resp ob with
       | Some hi, RROk =>
-          (* the write shows through the handle, and through no handle of another bucket name *)
+          (* the write shows through the handle, and through no handle of another store *)
           match nth_error (ro_views ob) (N.to_nat h), index_of k (rc_keys c) 0 with
           | Some (VData vals), Some i => match nth i vals None with Some v' => String.eqb v v' | None => false end
           | Some (VData _), None => true
           | _, _ => false
           end
-          && views_same_except (fun _ hj => String.eqb (hi_name hj) (hi_name hi)) 0 hs (ro_views prev) (ro_views ob)
+          && views_same_except (fun _ hj => same_store hi hj) 0 hs (ro_views prev) (ro_views ob)
       | _, _ => views_eqb (ro_views prev) (ro_views ob)
       end
       && names_eqb (ro_names prev) (ro_names ob) && dirs_eqb (ro_dirs prev) (ro_dirs ob)
@@ -105,7 +111,7 @@ Definition chk_step_C13 (c : rcase) (hs : list hinfo) (prev : robs) (o : rop) (o
             && (mem || dir_exists c ob url)
           else true)
       && match nth_error hs (N.to_nat h) with
-         | Some hi => views_same_except (fun _ hj => String.eqb (hi_name hj) (hi_name hi)) 0 hs (ro_views prev) (firstn (List.length hs) (ro_views ob))
+         | Some hi => views_same_except (fun _ hj => same_store hi hj) 0 hs (ro_views prev) (firstn (List.length hs) (ro_views ob))
          | None => true
          end
   end.
